@@ -18,4 +18,148 @@ def physToPara1 (dim : Nat) (b : BFun) (k : Nat) : Expr :=
     sop .mul (varref "JacInv" [i, k] (List.replicate dim 0) false)
              (pderiv b (bump (List.replicate dim 0) i 1) false))
 
+/-! ## The remaining branches of `replace_physical_derivs`, `_geo_hess_trf`, `insert_input_field_derivs`,
+and the measure / normal definitions (vform.py:197-239, 554-646, 1666-1698) -/
+
+def zerosD (dim : Nat) : List Nat := List.replicate dim 0
+def unitD (dim i : Nat) : List Nat := bump (zerosD dim) i 1
+/-- `Dx(Dx(·, r), c)` on order 0 -/
+def unit2D (dim r c : Nat) : List Nat := bump (bump (zerosD dim) r 1) c 1
+/-- an entry of `self.JacInv` (the variable's `as_expr`): `VarRefExpr(JacInv, (r,c))` -/
+def jinvRef (dim r c : Nat) : Expr := varref "JacInv" [r, c] (zerosD dim) false
+
+/-- `_D_to_indices(D)` (vform.py:18) -/
+def dToIndicesAux : List Nat → Nat → List Nat
+  | [], _ => []
+  | n :: rest, k => List.replicate n k ++ dToIndicesAux rest (k + 1)
+def dToIndices (D : List Nat) : List Nat := dToIndicesAux D 0
+
+/-- the atoms a physical derivative is taken of: a basis function (`PartialDerivExpr(bf, D, physical=False)`)
+or an entry of a parametric input field (`VarRefExpr(var, I, D, parametric=True)`), as functions of the
+parametric multi-index `D` (`e.without_derivs()` followed by `Dx(·, parametric=True)`) -/
+def bfAtom (b : BFun) : List Nat → Expr := fun D => pderiv b D false
+def varAtom (v : String) (I : List Nat) : List Nat → Expr := fun D => varref v I D true
+
+/-- order 1 (vform.py:590-592): `inner(self.JacInv[:, k], grad(e.without_derivs(), parametric=True))` -/
+def physToPara1G (dim : Nat) (atom : List Nat → Expr) (k : Nat) : Expr :=
+  reduceAdd ((List.range dim).map fun i => sop .mul (jinvRef dim i k) (atom (unitD dim i)))
+
+def geoHessTrfName (a i j : Nat) : String := s!"_geo_hess_trf_{a}_{i}_{j}"
+
+/-- order 2 (vform.py:594-605):
+    H_ij = self.JacInv[:,i].dot(Hp.dot(self.JacInv[:,j]));  for k: H_ij = H_ij + gp[k] * self._geo_hess_trf(k, i, j) -/
+def physToPara2G (dim : Nat) (atom : List Nat → Expr) (i j : Nat) : Expr :=
+  let h0 := reduceAdd ((List.range dim).map fun r =>
+    sop .mul (jinvRef dim r i)
+      (reduceAdd ((List.range dim).map fun c => sop .mul (atom (unit2D dim r c)) (jinvRef dim c j))))
+  (List.range dim).foldl (fun acc k =>
+    sop .add acc (sop .mul (atom (unitD dim k)) (varref (geoHessTrfName k i j) [] (zerosD dim) false))) h0
+
+/-- the variable `_geo_hess_trf_a_i_j` (vform.py:620-624):
+    -sum(hess(self.Geo[m], parametric=True)[e,u] * J[a,m] * J[e,i] * J[u,j] for m for e for u)
+(`sum` starts from the integer 0, i.e. `ConstExpr(0) + t0 + t1 + …`) -/
+def geoHessTrfDef (dim a i j : Nat) : Expr :=
+  neg (((List.range dim).flatMap fun m => (List.range dim).flatMap fun e => (List.range dim).map fun u =>
+      sop .mul (sop .mul (sop .mul (varref "geo_a" [m] (unit2D dim e u) true) (jinvRef dim a m)) (jinvRef dim e i)) (jinvRef dim u j))
+    |>.foldl (fun acc t => sop .add acc t) (const 0))
+
+/-- the whole non-space-time branch for a physical derivative `D` (orders 0,1,2) of an atom -/
+def physToParaG (dim : Nat) (atom : List Nat → Expr) (D : List Nat) : Option Expr :=
+  match dToIndices D with
+  | [] => some (atom D)                      -- `make_parametric()`
+  | [k] => some (physToPara1G dim atom k)
+  | [i, j] => some (physToPara2G dim atom i j)
+  | _ => none                                -- AssertionError('higher order physical derivatives not implemented')
+
+/-! ### space-time branch (vform.py:574-586); `dim` counts the time axis, which is last -/
+
+def digitsD (D : List Nat) : String := String.join (D.map toString)
+/-- `pderiv_as_var`: name of the variable holding a parametric derivative of a basis function -/
+def pderivVarName (b : BFun) (D : List Nat) : String := "_d" ++ b.name ++ "_" ++ digitsD D
+/-- `indices_to_D((i,) + a*(timedim,))` -/
+def stD (dim i a : Nat) : List Nat := bump (bump (zerosD dim) i 1) (dim - 1) a
+
+def physToParaST (dim : Nat) (b : BFun) (D : List Nat) : Option Expr :=
+  let Dx := D.take (dim - 1)
+  if dsum Dx == 0 then some (varref (pderivVarName b D) [] (zerosD dim) false)
+  else if dsum Dx == 1 then
+    let k := Dx.findIdx (· == 1)
+    let a := D.getD (dim - 1) 0
+    some (reduceAdd ((List.range (dim - 1)).map fun i =>
+      sop .mul (jinvRef dim i k) (varref (pderivVarName b (stD dim i a)) [] (zerosD dim) false)))
+  else none
+
+/-! ### `insert_input_field_derivs` (vform.py:626-646) and `sym_index_to_seq` (vform.py:28) -/
+
+def symIndexToSeq (n i j : Nat) : Nat :=
+  let a := min i j
+  let b := max i j
+  ((List.range a).map fun k => n - k).foldl (· + ·) 0 + (b - a)
+
+/-- `inName` is the `InputField`'s name (the variable is `inName_a`, its gradient / packed Hessian arrays
+`inName_grad_a` / `inName_hess_a` with the derivative index appended to `I`) -/
+def insertInputDeriv (dim : Nat) (inName : String) (I D : List Nat) : Option Expr :=
+  match dToIndices D with
+  | [] => none
+  | [k] => some (varref (inName ++ "_grad_a") (I ++ [k]) (zerosD dim) false)
+  | [i, j] => some (varref (inName ++ "_hess_a") (I ++ [symIndexToSeq D.length i j]) (zerosD dim) false)
+  | _ => none
+
+/-! ### `det`, `minor`, `inv` on literal matrices (vform.py:1666-1698), the predefined variables -/
+
+def pmOne (k : Nat) : Rat := if k % 2 == 0 then 1 else -1
+
+def minorRows (A : List (List Expr)) (i j : Nat) : List (List Expr) := (A.eraseIdx i).map (·.eraseIdx j)
+
+/-- `det(A)`; the first argument is `n = A.shape[0]` -/
+def detL : Nat → List (List Expr) → Expr
+  | 0, _ => const 1
+  | 1, A => (A.headD []).headD (const 0)
+  | n + 2, A => reduceAdd ((List.range (n + 2)).map fun j =>
+      sop .mul (const (pmOne j)) (sop .mul ((A.headD []).getD j (const 0)) (detL (n + 1) (minorRows A 0 j))))
+
+/-- `inv(A)` -/
+def invL (n : Nat) (A : List (List Expr)) : Expr :=
+  let invdet := sop .div (const 1) (detL n A)
+  if n == 1 then litmat 1 1 [invdet]
+  else
+    let cofacs := litmat n n ((List.range (n * n)).map fun k =>
+      sop .mul (const (pmOne (k % n + k / n))) (detL (n - 1) (minorRows A (k % n) (k / n))))
+    top .mul (broadcast invdet [n, n]) cofacs
+
+def varMat (name : String) (dim m n : Nat) : List (List Expr) :=
+  (List.range m).map fun i => (List.range n).map fun j => varref name [i, j] (zerosD dim) false
+
+/-- `Jac = grad(self.Geo, parametric=True)` -/
+def jacDef (dim geoDim : Nat) : Expr :=
+  litmat geoDim dim ((List.range (geoDim * dim)).map fun k => varref "geo_a" [k / dim] (unitD dim (k % dim)) true)
+/-- `JacInv = inv(self.Jac)` -/
+def jacInvDef (dim : Nat) : Expr := invL dim (varMat "Jac" dim dim dim)
+/-- `GaussWeight = reduce(operator.mul, [GaussWeightExpr(i) …])` -/
+def gaussWeightDef (dim : Nat) : Expr :=
+  match (List.range dim).map gw with
+  | [] => const 0
+  | g :: gs => gs.foldl (fun a b => sop .mul a b) g
+/-- `W = self.GaussWeight * abs(det(self.Jac))` -/
+def volumeWeightDef (dim : Nat) : Expr :=
+  sop .mul (varref "GaussWeight" [] (zerosD dim) false) (builtin "abs" (detL dim (varMat "Jac" dim dim dim)))
+
+/-- `_jac_to_unscaled_normal(self.BJac)` on the variable `jname` (`Jac` for surfaces, `BJac` for boundaries) -/
+def unscaledNormal (dim : Nat) (jname : String) (rows cols : Nat) : Expr :=
+  let r := fun i j => varref jname [i, j] (zerosD dim) false
+  if rows == 2 && cols == 1 then litvec [neg (r 1 0), r 0 0]
+  else cross (litvec [r 0 0, r 1 0, r 2 0]) (litvec [r 0 1, r 1 1, r 2 1])
+/-- `norm(x) = sqrt(inner(x, x))` -/
+def normE (x : Expr) : Expr := builtin "sqrt" (innerE x x)
+/-- `SW = self.GaussWeight * norm(_jac_to_unscaled_normal(self.BJac))` -/
+def surfaceWeightDef (dim : Nat) (jname : String) (rows cols : Nat) : Expr :=
+  sop .mul (varref "GaussWeight" [] (zerosD dim) false) (normE (unscaledNormal dim jname rows cols))
+/-- `normal = un / norm(un)` -/
+def normalDef (dim : Nat) (jname : String) (rows cols : Nat) : Expr :=
+  let un := unscaledNormal dim jname rows cols
+  operExpr .div un (normE un)
+/-- `BJac = self.Jac @ self.Jac_to_boundary` (boundary integrals) -/
+def bjacDef (dim : Nat) : Expr :=
+  matmat (litmat dim dim ((varMat "Jac" dim dim dim).flatten)) (litmat dim (dim - 1) ((varMat "Jac_to_boundary" dim dim (dim - 1)).flatten))
+
 end Pyiga.VForm
